@@ -130,6 +130,15 @@ def generate(tier, seed, ctx):
             lo, hi = region_of(rng, d, rng.choice([0, 1]))
             R.append("c14.call " + call_str(method, rng.randrange(2 ** 32), lo, hi, n, 0, [rng.choice([2.5, -1.0, 1.0])]))
             R.append("c14.call " + call_str(method, rng.randrange(2 ** 32), lo, hi, n, rng.choice([1, 5]), []))
+    # --- large budgets in low dimension (Vegas: the number of stratification cells per axis grows like ncall^(1/ndim):
+    #     ng ~ 1e5 in one dimension at 2e5 calls): in-region, constants, evaluation count, six sigma on a polynomial
+    big = [(1, 200000), (2, 200000), (1, 140000)] + ([(1, 1000000), (1, 500000), (2, 1000000), (3, 500000)] if th else [])
+    for d, n in big:
+        for method in METHODS:
+            lo, hi = region_of(rng, d, 1)
+            R.append("c14.call " + call_str(method, rng.randrange(2 ** 32), lo, hi, n, 0, [rng.choice([2.5, 0.75, -1.0])]))
+            if method != "Miser" or n <= 200000:
+                R.append("c14.call " + call_str(method, rng.randrange(2 ** 32), lo, hi, n, 5, []))
     # --- integrands that vanish at every sample point (f == 0; a narrow peak no sample hits): memory safety, result ~ 0
     R.append("c14.call Vegas 1 2 4 0x0p+0 0x0p+0 0x1p+0 0x1p+0 1000 0 1 0x0p+0")      # pre-fix replay of e78e51e
     for method in METHODS:
@@ -208,6 +217,36 @@ def generate(tier, seed, ctx):
                     lim += [lo[i], hi[i]]
                 R.append("c14.fhist%d %s %d %s %d %d %s 1 %d %d %d %s" % (d, method, rng.randrange(2 ** 32), " ".join(hx(v) for v in lim), n, fid, lst(p),
                                                                           rng.randrange(2 ** 32), n, hfid, lst(hp)))
+    # --- class D with histories containing ABANDONED integrations (the integrand throws, the caller catches) and with the
+    #     observed call made from inside the integrand of another integration
+    for k in range(120 if th else 45):
+        method = METHODS[k % 3] if k % 2 else "Vegas"
+        d = rng.randint(1, 4)
+        lo, hi = region_of(rng, d, rng.randrange(3))
+        fid = rng.choice([0, 1, 5])
+        n = rng.choice([1000, 2000, 5000])
+        tgt = call_str(method, rng.randrange(2 ** 32), lo, hi, n, fid, params_of(rng, fid, lo, hi))
+        items = []
+        for _ in range(rng.randint(1, 3)):
+            hm = rng.choice(METHODS) if k % 4 else method
+            hd = rng.randint(1, 4)
+            hlo, hhi = region_of(rng, hd, rng.randrange(3))
+            hf = rng.choice([0, 1, 5])
+            hn = rng.choice([500, 2000, 4000])
+            hc = call_str(hm, rng.randrange(2 ** 32), hlo, hhi, hn, hf, params_of(rng, hf, hlo, hhi))
+            if rng.random() < 0.7:
+                items.append("A %d %s" % (rng.choice([1, 2, 7, hn // 3, hn // 2 + 1, hn - 1, 2 * hn + 3]), hc))
+            else:
+                items.append("C " + hc)
+        if k % 3 == 0:
+            om = rng.choice(METHODS) if k % 2 else method
+            od = rng.randint(1, 3)
+            olo, ohi = region_of(rng, od, rng.randrange(3))
+            on = rng.choice([500, 3000])
+            fin = "N %d %s" % (rng.choice([1, 5, on // 2, on - 2]), call_str(om, rng.randrange(2 ** 32), olo, ohi, on, 1, []))
+        else:
+            fin = "T"
+        R.append("c14.histx %s %d %s %s" % (tgt, len(items), " ".join(items), fin))
     # --- front ends
     for k in range(90 if th else 36):
         method = METHODS[k % 3]
@@ -300,6 +339,19 @@ def plain_mc_sigma(fid, lo, hi, p, n):
 HDR_MIN_CALLS = 50000   # requests with fid 3/4 and at least this budget are the huge-dynamic-range accuracy family
 
 
+def vegas_cells(ncall, ndim):
+    """cell arithmetic of the init <= 2 block: (ng, nd, npg, k, evaluations of the 5 iterations)"""
+    ng = int(math.pow(ncall / 2.0 + 0.25, 1.0 / ndim))
+    nd = 50
+    if 2 * ng - 50 >= 0:
+        npg = ng // 50 + 1
+        nd = ng // npg
+        ng = npg * nd
+    k = ng ** ndim
+    npg = max(ncall // k, 2)
+    return ng, nd, npg, k, 5 * npg * k
+
+
 def crash_fail(name, impl):
     return [fail("prop", name + " crashed / exited on a valid request: " + tag(impl), impl[:200])]
 
@@ -339,6 +391,21 @@ def compare(rq, impl, model, ctx):
         if t[0] != t[2] or t[1] != t[3]:
             return [fail("prop", "Integrate_MC(%s): result depends on integrations run before it (same call and seed, fresh process vs after a history)" % c["method"],
                          "fresh %s (%s calls) after history %s (%s calls)" % (t[0], t[1], t[2], t[3]))]
+        return []
+    if op == "c14.histx":
+        c = parse_call(a)
+        name = "Integrate_MC(%s)" % c["method"]
+        nested = " N " in (" " + " ".join(a[c["end"]:]) + " ")
+        ctx["nontrivial"].add((op, c["method"], c["d"], c["fid"], nested))
+        if tag(impl) != "ok":
+            return crash_fail(name, impl)
+        t = toks(impl)
+        nf_ = nonfinite_fail(name, fl(t[0]), fl(t[2]))
+        if nf_:
+            return nf_
+        if t[0] != t[2] or t[1] != t[3]:
+            return [fail("prop", name + ": result depends on integrations run before it (same call and seed, fresh process vs after a history with abandoned / enclosing integrations)",
+                         "fresh %s (%s evaluations) after history %s (%s evaluations)" % (t[0], t[1], t[2], t[3]))]
         return []
     if op in ("c14.fhist2", "c14.fhist3"):
         name = "Integrate_%sD(%s)" % (op[-1], a[0])
@@ -417,6 +484,12 @@ def compare(rq, impl, model, ctx):
         out += const_check(ctx, name, c["method"], v, ex, calls)
     if c["method"] != "Vegas" and calls != c["n"]:
         out.append(fail("corr", name + ": number of integrand calls differs from the budget (Miser accounting npre+nptl+nptr = npts)", "%d vs %d" % (calls, c["n"])))
+    if c["method"] == "Vegas" and c["n"] >= 4:
+        ng, nd_, npg, kk, total = vegas_cells(c["n"], d)
+        ctx["stats"]["vegas_max_cell_index"] = max(ctx["stats"].get("vegas_max_cell_index", 0), ng)
+        if calls != total:
+            out.append(fail("prop", name + ": number of integrand evaluations is not 5 sweeps over all ng^ndim stratification cells with npg points each",
+                            "%d evaluations, expected 5*%d*%d = %d (ng = %d)" % (calls, npg, kk, total, ng)))
     idx = ctx.get("cursor", 0)
     ctx.setdefault("vals", {})[rq] = (v, ex)
     if out:
